@@ -238,7 +238,7 @@ void file_walk(file_t *F){
     if(r<0){ off-=r; continue; }
     if(F->npages==cap){ cap=cap*2+64; F->pages=realloc(F->pages,cap*sizeof(page_t)); }
     page_t *p=&F->pages[F->npages++]; memset(p,0,sizeof *p);
-    p->off=off; p->len=r; p->serial=ogg_page_serialno(&og); p->gp=ogg_page_granulepos(&og); p->bos=ogg_page_bos(&og)?1:0; p->eos=ogg_page_eos(&og)?1:0; p->cont=ogg_page_continued(&og)?1:0; p->npk=ogg_page_packets(&og); p->crcok=1;
+    p->off=off; p->len=r; p->serial=ogg_page_serialno(&og); p->gp=ogg_page_granulepos(&og); p->bos=ogg_page_bos(&og)?1:0; p->eos=ogg_page_eos(&og)?1:0; p->cont=ogg_page_continued(&og)?1:0; p->npk=ogg_page_packets(&og); p->pageno=ogg_page_pageno(&og); p->tail=(og.header[26]>0&&og.header[27+og.header[26]-1]==255); p->crcok=1;
     if(!F->damaged){
       if(curlink+1<F->nlinks && off>=F->lbeg[curlink+1]){ curlink++; hdrpk=0; }
       p->link = (curlink>=0 && p->serial==F->serials[curlink]) ? curlink : -1;
